@@ -62,6 +62,10 @@ CLAIMED = {
          "Props/C17.v: C17_interior, C17_minmax. The executable model Writers.Chk2plt.convert_level (state-file scan, ghost stripping, flooring table, gradp / I_R at recorded offsets, offset-sorted tasks mapped back to box order) is compared byte for byte with chk2plt's output on synthetic checkpoints (1-3 levels, 1-3 ghost cells, anisotropic shifted domains, independent layouts per data subset, all flag combinations, species from list or reference plotfile); the independent reader checks fields, levels, boxes, time, geometry, interior values, rescaled mass fractions, min/max; taste with box coordinates; the checkpoint tree is hashed before and after.",
          "partial: the checkpoint Header parse, dx = domain / grid, box bounds and the text writers are checked at property level only (not modelled); flooring division is numpy's (table); two defects repaired by fix: commits, see KNOWN_FINDINGS.txt.",
          "DESIGN.md section 3 C17"),
+ 'C14': ("Coq proof (induction lifting per-operation preservation/refinement to every finite pipeline and every intermediate state; strain-all identity; cook-then-combine identity on box contents) + hop-by-hop correspondence of the composed extracted models with the real tool chain",
+         "Props/C14.v: C14_pipeline, C14_strain_all_identity, C14_cook_combine. Pipelines over {colander, chef, combine with sibling, combine with ancestor} (all sequences of length <= 2 over the kinds, sampled up to 4) are run on generated plotfiles; after every hop the output is parsed by the independent reader and compared with the composed pure numpy operations, validated by taste (with and without box coordinates), and compared byte for byte with the composition of the extracted Writers.* models.",
+         "the per-operation hypotheses of C14_pipeline (each tool preserves well-formedness and refines its pure operation) are proved only for the binary cores (C05/C06/C11) and otherwise established by correspondence; chk2plt as a source is covered by C17.",
+         "DESIGN.md section 3 C14"),
 }
 PENDING_REASON = "check not built yet in this round (model and theorems planned in DESIGN.md section 3); not claimed until its check runs"
 
